@@ -595,7 +595,9 @@ func c19(c *Ctx) {
 // constValue returns the string value of package-level constant pkg.name.
 func constValue(c *Ctx, pkg, name string) string {
 	o := c.P.Object(pkg, name)
-	if k, ok := o.(interface{ Val() interface{ ExactString() string } }); ok {
+	if k, ok := o.(interface {
+		Val() interface{ ExactString() string }
+	}); ok {
 		_ = k
 	}
 	if sp := c.P.Pkg(pkg); sp != nil {
